@@ -100,7 +100,8 @@ type SignerFacts struct {
 
 // CertFacts are the atomic facts about one certificate (embedded or trust store).
 type CertFacts struct {
-	Parseable             bool
+	Parseable             bool // TBSCertificate, SubjectPublicKeyInfo and signature value could be located
+	NamesParseable        bool // issuer and subject are well-formed RDNSequences
 	Raw                   []byte
 	Version               int // 1..3
 	Serial                *big.Int
@@ -112,12 +113,13 @@ type CertFacts struct {
 	NotBefore, NotAfter   time.Time
 	ValidityParseable     bool
 
-	SPKI        []byte
-	KeyKind     string // "rsa", "ec", ""
-	KeyBits     int    // modulus / field size
-	KeyCurve    string // known curve name, "custom" for unknown explicit parameters
-	KeyExplicit bool   // EC domain parameters given explicitly
-	KeyValid    bool   // key decodes (EC: point on the declared curve)
+	SPKI           []byte
+	KeyKind        string // "rsa", "ec", ""
+	KeyBits        int    // modulus / field size
+	KeyCurve       string // known curve name, "custom" for unknown explicit parameters
+	KeyExplicit    bool   // EC domain parameters given explicitly
+	KeyParamsExact bool   // false: explicit parameters whose prime is that of KeyCurve but whose other components differ or are unreadable (the standard parameters are then used for verification)
+	KeyValid       bool   // key decodes (EC: point on the declared curve)
 
 	SigAlgOID      string
 	SigAlgHash     string
@@ -149,10 +151,13 @@ type CertFacts struct {
 	SelfSigned bool // SelfIssued and the signature verifies under the certificate's own key
 
 	// Relative to the trust store passed to ComputeFacts:
-	ChainsTo      []int // trust store certificates whose key verifies this certificate's signature
-	AKIMatches    []int // trust store certificates whose SKI equals this certificate's AKI
-	IssuerMatches []int // trust store certificates whose subject equals this certificate's issuer
-	InTrustStore  []int // trust store certificates byte-identical to this one
+	ChainsTo []int // trust store certificates whose key verifies this certificate's signature (per signatureAlgorithm incl. all RSASSA-PSS parameters)
+	// ChainsToLenient: as ChainsTo, but for RSASSA-PSS only the hashAlgorithm parameter is
+	// honoured (MGF1 with the same hash, any salt length, trailer not looked at). Superset of ChainsTo.
+	ChainsToLenient []int
+	AKIMatches      []int // trust store certificates whose SKI equals this certificate's AKI
+	IssuerMatches   []int // trust store certificates whose subject equals this certificate's issuer
+	InTrustStore    []int // trust store certificates byte-identical to this one
 }
 
 // AnchorFacts are the facts about a trust store entry.
@@ -642,7 +647,7 @@ func parseName(n *node) *nameInfo {
 		return out
 	}
 	out.raw = n.full
-	if !n.isU(0x10) || !n.cons {
+	if !n.cons { // the outer tag is not looked at (raw value in lenient decoders)
 		return out
 	}
 	rdns, err := n.kids(0)
@@ -835,13 +840,20 @@ func parseCertificate(der []byte) *certInfo {
 	return parseCertificateNode(n)
 }
 
+// parseCertificateNode reads a certificate leniently. The certificate counts as
+// parseable as soon as the three parts every fact rests on can be located: the
+// TBSCertificate, the SubjectPublicKeyInfo element and the signature value. Any
+// other field that is odd (version out of range, serial not an INTEGER, a name
+// with an unexpected tag, undecodable times, a malformed extension) only
+// degrades the corresponding facts to their neutral values, because decoders
+// built on Go's encoding/asn1 read those fields as raw values and go on.
 func parseCertificateNode(n *node) *certInfo {
-	c := &certInfo{raw: n.full, version: 1}
-	if !n.isU(0x10) || !n.cons {
+	c := &certInfo{raw: n.full, version: 1, issuer: &nameInfo{}, subject: &nameInfo{}}
+	if !n.cons {
 		return c
 	}
-	ks, err := n.kids(0)
-	if err != nil || len(ks) != 3 || !ks[0].isU(0x10) || !ks[0].cons || !ks[1].isU(0x10) || !ks[2].isU(tagBitString) {
+	ks, _ := n.kids(0)
+	if len(ks) < 3 || !ks[0].cons || !ks[2].isU(tagBitString) {
 		return c
 	}
 	c.tbs = ks[0].full
@@ -852,95 +864,75 @@ func parseCertificateNode(n *node) *certInfo {
 		return c
 	}
 	c.sig = sig
-	t, err := ks[0].kidsExplicit(0, func(idx, tag int) bool { return (idx == 0 && tag == 0) || tag == 3 })
-	if err != nil {
-		return c
-	}
+	t, _ := ks[0].kidsExplicit(0, func(idx, tag int) bool { return (idx == 0 && tag == 0) || tag == 3 })
 	i := 0
 	if len(t) > 0 && t[0].isC(0) && t[0].cons {
-		v, _ := t[0].kids(0)
-		if len(v) != 1 {
-			return c
+		if v, _ := t[0].kids(0); len(v) >= 1 {
+			if ver, ok := v[0].smallInt(); ok {
+				c.version = ver + 1
+			}
 		}
-		ver, ok := v[0].smallInt()
-		if !ok || ver < 0 || ver > 2 {
-			return c
-		}
-		c.version = ver + 1
 		i = 1
 	}
 	if len(t) < i+6 {
 		return c
 	}
-	ser, ok := t[i].integer()
-	if !ok || !t[i].isU(tagInteger) {
-		return c
-	}
-	c.serial = ser
-	if !t[i+1].isU(0x10) {
-		return c
+	if ser, ok := t[i].integer(); ok && t[i].isU(tagInteger) {
+		c.serial = ser
 	}
 	c.innerAlg = t[i+1].full
 	c.issuerRaw = t[i+2].full
 	c.issuer = parseName(t[i+2])
-	if !t[i+3].isU(0x10) || !t[i+3].cons {
-		return c
-	}
-	val, _ := t[i+3].kids(0)
-	if len(val) == 2 {
-		nb, ok1 := val[0].timeValue()
-		na, ok2 := val[1].timeValue()
-		if ok1 && ok2 {
-			c.nb, c.na, c.timeOK = nb, na, true
+	if t[i+3].cons {
+		if val, _ := t[i+3].kids(0); len(val) >= 2 {
+			nb, ok1 := val[0].timeValue()
+			na, ok2 := val[1].timeValue()
+			if ok1 && ok2 {
+				c.nb, c.na, c.timeOK = nb, na, true
+			}
 		}
 	}
 	c.subjectRaw = t[i+4].full
 	c.subject = parseName(t[i+4])
-	if !t[i+5].isU(0x10) || !t[i+5].cons {
-		return c
-	}
 	c.spki = t[i+5].full
+	c.ok = true
 	for _, e := range t[i+6:] {
-		if e.isC(3) && e.cons {
-			w, _ := e.kids(0)
-			if len(w) != 1 || !w[0].isU(0x10) || !w[0].cons {
-				return c
+		if !e.isC(3) || !e.cons || c.hasExts {
+			continue
+		}
+		w, _ := e.kids(0)
+		if len(w) < 1 || !w[0].cons {
+			continue
+		}
+		es, _ := w[0].kids(0)
+		c.hasExts = true
+		for _, x := range es {
+			if !x.cons {
+				continue
 			}
-			es, err := w[0].kids(0)
-			if err != nil {
-				return c
+			p, _ := x.kids(0)
+			if len(p) < 2 || p[0].oid() == "" {
+				continue
 			}
-			c.hasExts = true
-			for _, x := range es {
-				if !x.isU(0x10) || !x.cons {
-					return c
-				}
-				p, err := x.kids(0)
-				if err != nil || len(p) < 2 || len(p) > 3 || p[0].oid() == "" {
-					return c
-				}
-				ei := extInfo{oid: p[0].oid()}
-				vi := 1
-				if len(p) == 3 {
-					if !p[1].isU(tagBoolean) || len(p[1].body) != 1 {
-						return c
+			ei := extInfo{oid: p[0].oid()}
+			vi := 1
+			if len(p) >= 3 && p[1].isU(tagBoolean) {
+				for _, b := range p[1].body {
+					if b != 0 {
+						ei.critical = true
 					}
-					ei.critical = p[1].body[0] != 0
-					vi = 2
 				}
-				if !p[vi].isU(tagOctetString) {
-					return c
-				}
-				v, ok := p[vi].octets(0)
-				if !ok {
-					return c
-				}
-				ei.value = v
-				c.exts = append(c.exts, ei)
+				vi = 2
 			}
+			// extnValue: the contents octets whatever the tag says
+			v, ok := p[vi].octets(0)
+			if !ok {
+				v = p[vi].body
+			}
+			ei.value = v
+			c.exts = append(c.exts, ei)
 		}
 	}
-	c.ok = c.issuer.ok && c.subject.ok
 	if e := c.ext(OIDExtSKI); e != nil {
 		if n, tr, err := parseAll(e.value); err == nil && tr == 0 && n.isU(tagOctetString) {
 			if b, ok := n.octets(0); ok {
@@ -969,6 +961,7 @@ func (c *certInfo) facts(anchors []*certInfo) CertFacts {
 		return f
 	}
 	f.Parseable = true
+	f.NamesParseable = c.issuer.ok && c.subject.ok
 	f.Version = c.version
 	f.Serial = c.serial
 	f.Issuer, f.Subject = c.issuer.String(), c.subject.String()
@@ -978,6 +971,7 @@ func (c *certInfo) facts(anchors []*certInfo) CertFacts {
 	f.SPKI = c.spki
 	if pk := parseSPKI(c.spki); pk != nil {
 		f.KeyKind, f.KeyBits, f.KeyCurve, f.KeyExplicit, f.KeyValid = pk.kind, pk.bits, pk.curveName, pk.explicit, pk.valid
+		f.KeyParamsExact = pk.kind != "ec" || pk.paramsExact
 	}
 	if n, _, err := parseAll(c.outerAlg); err == nil {
 		if o, _, ok := algIDParts(n); ok {
@@ -1012,34 +1006,35 @@ func (c *certInfo) facts(anchors []*certInfo) CertFacts {
 		f.HasBasicConstraints = true
 		f.BasicConstraintsCritical = e.critical
 		f.BasicConstraintsMalformed = true
-		if n, tr, err := parseAll(e.value); err == nil && tr == 0 && n.isU(0x10) && n.cons {
-			if p, err := n.kids(0); err == nil && len(p) <= 2 {
-				okAll := true
-				i := 0
-				if i < len(p) && p[i].isU(tagBoolean) {
-					if len(p[i].body) == 1 {
-						f.IsCA = p[i].body[0] != 0
-					} else {
-						okAll = false
+		// cA comes from a leading BOOLEAN, pathLen from an INTEGER after it; anything
+		// else in the SEQUENCE (or after it) sets Malformed but does not erase cA.
+		if n, tr, err := parseAll(e.value); err == nil && n.isU(0x10) && n.cons {
+			p, perr := n.kids(0)
+			okAll := perr == nil && tr == 0
+			i := 0
+			if i < len(p) && p[i].isU(tagBoolean) {
+				for _, b := range p[i].body {
+					if b != 0 {
+						f.IsCA = true
 					}
-					i++
 				}
-				if i < len(p) && p[i].isU(tagInteger) {
-					if v, ok := p[i].smallInt(); ok {
-						f.PathLen = v
-					} else {
-						okAll = false
-					}
-					i++
-				}
-				if i != len(p) {
+				if len(p[i].body) != 1 {
 					okAll = false
 				}
-				f.BasicConstraintsMalformed = !okAll
-				if !okAll {
-					f.IsCA = false
-				}
+				i++
 			}
+			if i < len(p) && p[i].isU(tagInteger) {
+				if v, ok := p[i].smallInt(); ok {
+					f.PathLen = v
+				} else {
+					okAll = false
+				}
+				i++
+			}
+			if i != len(p) {
+				okAll = false
+			}
+			f.BasicConstraintsMalformed = !okAll
 		}
 	}
 	if e := c.ext(OIDExtKeyUsage); e != nil {
@@ -1106,6 +1101,9 @@ func (c *certInfo) facts(anchors []*certInfo) CertFacts {
 		}
 		if verifySig(a.spki, c.outerAlg, "", false, c.tbs, c.sig) {
 			f.ChainsTo = append(f.ChainsTo, i)
+			f.ChainsToLenient = append(f.ChainsToLenient, i)
+		} else if h := pssHashOnly(c.outerAlg); h != "" && verifySig(a.spki, c.outerAlg, h, true, c.tbs, c.sig) {
+			f.ChainsToLenient = append(f.ChainsToLenient, i)
 		}
 		if f.AKI != nil && a.ski != nil && bytes.Equal(f.AKI, a.ski) {
 			f.AKIMatches = append(f.AKIMatches, i)
@@ -1125,14 +1123,15 @@ func (c *certInfo) facts(anchors []*certInfo) CertFacts {
 // ---------------------------------------------------------------------------
 
 type pubKey struct {
-	kind      string // "rsa", "ec"
-	bits      int
-	valid     bool
-	n, e      *big.Int
-	curve     *Curve
-	curveName string
-	explicit  bool
-	x, y      *big.Int
+	kind        string // "rsa", "ec"
+	bits        int
+	valid       bool
+	n, e        *big.Int
+	curve       *Curve
+	curveName   string
+	explicit    bool
+	paramsExact bool
+	x, y        *big.Int
 }
 
 const (
@@ -1191,18 +1190,24 @@ func parseSPKI(spki []byte) *pubKey {
 			if pk.curve == nil {
 				return pk
 			}
-			pk.curveName = pk.curve.Name
+			pk.curveName, pk.paramsExact = pk.curve.Name, true
 		case params.isU(0x10) && params.cons:
 			pk.explicit = true
 			c := parseECParameters(params)
-			if c == nil {
+			switch {
+			case c != nil && matchKnownCurve(c) != nil:
+				c = matchKnownCurve(c)
+				pk.curveName, pk.paramsExact = c.Name, true
+			case knownCurveByPrime(ecParametersPrime(params)) != nil:
+				// The field prime is that of a standard curve but the other parameters are
+				// not (or cannot be read). Verifiers that identify the curve by its prime use
+				// the standard parameters; do the same and say so (KeyParamsExact false).
+				c = knownCurveByPrime(ecParametersPrime(params))
+				pk.curveName = c.Name
+			case c != nil:
+				pk.curveName, pk.paramsExact = "custom", true
+			default:
 				return pk
-			}
-			if k := matchKnownCurve(c); k != nil {
-				c = k
-				pk.curveName = k.Name
-			} else {
-				pk.curveName = "custom"
 			}
 			pk.curve = c
 		default:
@@ -1239,6 +1244,32 @@ func parseSPKI(spki []byte) *pubKey {
 		}
 		pk.valid = pk.curve.IsOnCurve(pk.x, pk.y)
 		return pk
+	}
+	return nil
+}
+
+// ecParametersPrime extracts just the field prime of explicit ECParameters (nil if not found).
+func ecParametersPrime(n *node) *big.Int {
+	ks, _ := n.kids(0)
+	if len(ks) < 2 || !ks[1].cons {
+		return nil
+	}
+	fid, _ := ks[1].kids(0)
+	// the contents octets are taken as the prime whatever the tag says (raw value in lenient decoders)
+	if len(fid) < 2 || len(fid[1].body) == 0 || len(fid[1].body) > 256 {
+		return nil
+	}
+	return new(big.Int).SetBytes(fid[1].body)
+}
+
+func knownCurveByPrime(p *big.Int) *Curve {
+	if p == nil {
+		return nil
+	}
+	for _, name := range CurveNames {
+		if c := CurveByName(name); c.P.Cmp(p) == 0 {
+			return c
+		}
 	}
 	return nil
 }
@@ -1369,6 +1400,35 @@ func parsePSSParams(alg *node) (pssParams, bool) {
 		}
 	}
 	return p, true
+}
+
+// pssHashOnly returns the hash named by the hashAlgorithm parameter of an RSASSA-PSS
+// AlgorithmIdentifier ("sha1" if absent), "" if the algorithm is not RSASSA-PSS.
+func pssHashOnly(algDER []byte) string {
+	alg, _, err := parseAll(algDER)
+	if err != nil {
+		return ""
+	}
+	oid, params, ok := algIDParts(alg)
+	if !ok || oid != OIDRSASSAPSS {
+		return ""
+	}
+	if params == nil || !params.cons {
+		return "sha1"
+	}
+	ks, _ := params.kidsExplicit(0, func(idx, tag int) bool { return true })
+	for _, k := range ks {
+		if k.isC(0) && k.cons {
+			in, _ := k.kids(0)
+			if len(in) >= 1 {
+				if o, _, ok := algIDParts(in[0]); ok {
+					return hashByOID[o]
+				}
+			}
+			return ""
+		}
+	}
+	return "sha1"
 }
 
 // VerifySig verifies sig over signed under the public key pubSPKI according to
